@@ -38,7 +38,7 @@ CHECKS = {
     },
     "C04": {
         "level": "fault_enumeration",
-        "parts": [{"gen": "C04", "quick": 144, "thorough": 1440}],
+        "parts": [{"gen": "C04", "quick": 192, "thorough": 1920}],
         "exhaustive_claim": False,
         "rule": "one plan = one (protocol, cipher, single/multi-user) cell x direction (client->server or server->client) x segmentation family; the real client and server run with a "
                 "man-in-the-middle node on their link that forwards the byte stream in exact pieces and lets the receiver go quiet after each piece (no EOF at the end). Families: "
@@ -50,7 +50,7 @@ CHECKS = {
     },
     "C05": {
         "level": "fault_enumeration",
-        "parts": [{"gen": "C05", "quick": 66, "thorough": 660}],
+        "parts": [{"gen": "C05", "quick": 88, "thorough": 880}],
         "rule": "one plan = one encrypted (protocol, cipher, single/multi-user) cell x direction; the man-in-the-middle node mutates the real byte stream between the real client and server: "
                 "one bit flipped in every byte position 0..n-1 (exhaustive over positions, bit drawn), truncation+close at every third offset, seeded deletions, duplications, insertions and multi-byte edits, "
                 "and full reflection of a sender's stream (Shadowsocks 2022, VMess). Each mutation is one evaluation. Oracle: everything released to the far side is a prefix of what was written; "
@@ -130,7 +130,7 @@ CHECKS = {
     },
     "C14": {
         "level": "exploration",
-        "parts": [{"gen": "C14", "quick": 4100, "thorough": 4100, "exhaustive": True}],
+        "parts": [{"gen": "C14", "quick": 16400, "thorough": 65600, "exhaustive": True}],
         "rule": "the seed is the case index: name length = seed mod 1025 (every length 0..=1024), protocol family = (seed div 1025) mod 4 over {Shadowsocks legacy, Shadowsocks 2022, VMess, Trojan}; the name's bytes, the port, the payload and the "
                 "local handshake (SOCKS5 domain with host-name characters or arbitrary bytes for lengths <= 255, HTTP CONNECT or absolute-URI otherwise) are drawn from the seed. The client<->server link runs through the transparent "
                 "man-in-the-middle node, which counts the bytes the client puts on the wire. Oracle: either the server resolves exactly that name, dials exactly that port and the target receives exactly the payload, or the client sends nothing at all; "
